@@ -187,6 +187,16 @@ def install_seams():
 
     wrap(Parser, "parse", before="parse_entry", exc="parse_exc")
     wrap(Parser, "load_includes", after="includes_exit", toplevel=True)
+    wrap(Parser, "open_file", before="open_file_entry")
+    import posixpath
+    orig_abspath = posixpath.abspath
+
+    def abspath(path):
+        # parser.py resolves an INCLUDE with os.path.abspath: the moment the path is fixed
+        if getattr(_tls, "ctx", None) is not None and getattr(_tls, "_depth_Parser_load_includes", 0) > 0:
+            fire("abspath")
+        return orig_abspath(path)
+    posixpath.abspath = abspath
     wrap(Parser, "_assign_comments", before="assign_entry", toplevel=True)
     wrap(MapfileToDict, "transform", before="transform_entry", after="transform_exit")
     wrap(PrettyPrinter, "pprint", before="pprint_entry", after="pprint_exit")
@@ -213,7 +223,8 @@ def model_pcs(desc, doctable):
     if k == "loads":
         a = doctable[desc["doc"] - 1]
         last = a["fail"] if a["fail"] else a["ntok"]
-        pcs = ["incl", "clear"] + ["lex%d" % i for i in range(1, last + 1)]
+        pcs = ["incl"] + (["iresolve", "iread"] if a.get("inc") else []) + ["clear"]
+        pcs += ["lex%d" % i for i in range(1, last + 1)]
         if not a["fail"]:
             if desc["com"]:
                 pcs += ["cdict", "assign"]
@@ -245,6 +256,8 @@ class CallCtx:
         self.group = 1
         self.nprops = 0
         self.formatted = False
+        self.resolved = False
+        self.read = False
         self.expected = []
         self.i = 0
 
@@ -260,6 +273,14 @@ class CallCtx:
                 self.seam("incl")
             elif ev == "includes_exit":
                 self.seam("clear")
+            elif ev == "abspath":
+                if not self.resolved:
+                    self.resolved = True
+                    self.seam("iresolve")
+            elif ev == "open_file_entry":
+                if getattr(_tls, "_depth_Parser_load_includes", 0) > 0 and not self.read:
+                    self.read = True
+                    self.seam("iread")
             elif ev == "parse_interactive":
                 self.seam("lex1")
             elif ev == "tok":
@@ -417,8 +438,12 @@ class ConcreteDoc:
 
         def cmt(k):
             return " # c%dv%d_%d" % (doc, variant, k) if k in com else ""
+        # a comment after the last node (line ntok + 1 of the table): no node claims it.  Such a
+        # document is kept minimal, so that every other document has nodes on later lines.
+        tail = (ntok + 1) in com
         g1 = ["MAP", '  NAME "%s"%s' % (self.name, cmt(1))]
-        g1 += ["  " + x for x in rng.sample(MAP_EXTRAS, rng.randint(0, 4))]
+        if not tail:
+            g1 += ["  " + x for x in rng.sample(MAP_EXTRAS, rng.randint(0, 4))]
         if "old" in attrs["entries"]:
             g1.append("  IMAGEQUALITY 80")
         groups.append(g1)
@@ -430,20 +455,25 @@ class ConcreteDoc:
                 g.append("    STATUS maybe")
             if "anc" in attrs["entries"] and k == 2:
                 g.append("    LABELMAXSCALE 100")
-            g += ["    " + x for x in rng.sample(LAYER_EXTRAS, rng.randint(0, 3))
-                  if not ("f1" in attrs["faults"] and x.startswith("STATUS"))]
-            if rng.random() < 0.6:
-                g += ["    " + x for x in rng.choice(CLASS_BLOCKS)]
+            if not tail:
+                g += ["    " + x for x in rng.sample(LAYER_EXTRAS, rng.randint(0, 3))
+                      if not ("f1" in attrs["faults"] and x.startswith("STATUS"))]
+                if rng.random() < 0.6:
+                    g += ["    " + x for x in rng.choice(CLASS_BLOCKS)]
+            if tail and k == ntok and variant % 2 == 0:
+                g.append("    # c%dv%d_%d" % (doc, variant, ntok + 1))      # directly before the END
             g.append("  END")
             groups.append(g)
         groups[-1].append("END")
+        if tail and variant % 2 == 1:
+            groups[-1].append("# c%dv%d_%d" % (doc, variant, ntok + 1))         # after the final END
         if fail:
             groups[fail - 1].insert(1 if fail > 1 else 2, '    ]')       # rejected at this token
         inc = attrs.get("inc", 0)
         if inc:
             # the first LAYER lives in an include file next to the document; its NAME says which
             # file (folder, written name) it came from
-            groups[1][1] = '    NAME "inc%d_dir%d"%s' % (inc, attrs["dir"], cmt(2))
+            groups[1][1] = '    NAME "inc%d_dir%d"%s' % (inc, attrs["dir"] or attrs.get("cwd0", 0), cmt(2))
         lines = []
         self.line_group = {}                # line of the expanded text -> group (= abstract token)
         for gi, g in enumerate(groups):
@@ -453,10 +483,15 @@ class ConcreteDoc:
         self.expanded = "\n".join(lines) + "\n"
         self.files = {}                     # relative path -> content
         folder = "dir%dv%d" % (attrs.get("dir", 0), variant)
+        self.cwd_relative = bool(inc) and attrs.get("dir", 0) == 0
         if inc:
             self.inc_name = "part%d.inc" % inc
             self.files[os.path.join(folder, self.inc_name)] = "\n".join(groups[1])
-            main = groups[0] + ['  INCLUDE "%s"' % self.inc_name] + [ln for g in groups[2:] for ln in g]
+            written = self.inc_name
+            if self.cwd_relative:
+                # text without a file name: the include is written relative to the working directory
+                written = os.path.relpath(os.path.join(root or "", folder, self.inc_name), os.getcwd())
+            main = groups[0] + ['  INCLUDE "%s"' % written] + [ln for g in groups[2:] for ln in g]
             self.text = "\n".join(main) + "\n"
         else:
             self.text = self.expanded
@@ -464,7 +499,7 @@ class ConcreteDoc:
         self.files[self.rel] = self.text
         self.path = os.path.join(root, self.rel) if root else None
         # which public front end reads this document: text, file name or open file
-        fes = ["open", "load"] if inc or not root else ["loads", "open", "load"]
+        fes = ["loads"] if self.cwd_relative else ["open", "load"] if inc or not root else ["loads", "open", "load"]
         self.fe = {c: fes[(doc + variant + int(c)) % len(fes)] if root else "loads" for c in (True, False)}
         self.comment_ids = {"# c%dv%d_%d" % (doc, variant, k): {"doc": doc, "line": k} for k in com}
         self._d = None                 # the dictionary callers hold (loaded once, with comments)
@@ -473,7 +508,7 @@ class ConcreteDoc:
     def d(self):
         """loaded on first use through the public API (fresh workers)"""
         if self._d is None and not self.attrs["fail"]:
-            if self.attrs.get("inc"):
+            if self.attrs.get("inc") and not self.cwd_relative:
                 self._d = mappyfile.open(self.path, include_comments=True)
             else:
                 self._d = mappyfile.loads(self.text, include_comments=True)
@@ -574,6 +609,8 @@ def abstract_result(desc, cd, out, docs_by_comment):
     k = desc["kind"]
     if k == "loads":
         if out[0] == "exc":
+            if out[1] in ("FileNotFoundError", "OSError", "IOError", "NotADirectoryError"):
+                return {"k": "ioerror"}
             return {"k": "error"} if out[1] in LARK_ERRORS else {"k": "exception:" + out[1]}
         d = out[1]
         found = []
@@ -1069,10 +1106,14 @@ def task_schedules(job):
         seq.append(row)
     used = sorted({(c["doc"], v) for ti, calls in enumerate(script) for c, v in zip(calls, variants[ti])})
     failures = []
+    cwd0 = os.getcwd()
     for si, sched in enumerate(job["scheds"]):
         pre = {k: digest(snap(docs[k].d)) for k in used if docs[k].d is not None}
         outs, seen, fail = force_schedule(script, sched, docs, variants)
         n += 1
+        cwd1 = os.getcwd()
+        if cwd1 != cwd0:
+            os.chdir(cwd0)
         if fail:
             failures.append(fail)
             if len(failures) > 3:
@@ -1082,6 +1123,10 @@ def task_schedules(job):
                 "doctable": job["doctable"], "root": job.get("root"),
                 "texts": {"%d/%d" % k: docs[k].text for k in used}}
         hist = job["hists"][si] if job.get("hists") else None
+        if cwd1 != cwd0:
+            viol.append(("C12|schedule|%s|cwd-changed" % pair_sig(script),
+                         "the working directory of the process is %s after a forced interleaving (was %s); schedule %s" % (
+                             cwd1, cwd0, " ".join("%d:%s" % (e["t"], e["at"]) for e in sched)), case))
         for ti, calls in enumerate(script):
             for ci, desc in enumerate(calls):
                 got = value_of(outs[ti][ci])
@@ -1134,7 +1179,9 @@ def task_stress(job):
                 menu.append(({"kind": "validate", "doc": doc, "com": False, "ver": ver, "key": "all"}, v))
             for q in ("find", "findall", "findunique", "findkey"):
                 menu.append(({"kind": q, "doc": doc, "com": False, "ver": 0, "key": "all"}, v))
-    weights = [6 if m[0]["kind"] == "loads" and m[0]["com"] else 2 if m[0]["kind"] in ("loads", "validate", "dumps") else 1
+    incdocs = {i + 1 for i, a in enumerate(job["doctable"]) if a.get("inc")}
+    weights = [8 if m[0]["kind"] == "loads" and m[0]["doc"] in incdocs else
+               6 if m[0]["kind"] == "loads" and m[0]["com"] else 2 if m[0]["kind"] in ("loads", "validate", "dumps") else 1
                for m in menu]
     for desc, v in menu:
         refs.get(desc, v)
@@ -1166,6 +1213,7 @@ def task_stress(job):
                                  "%s called from one of %d free-running threads returned %s, sequentially %s" % (
                                      call_str(desc), nthreads, json.dumps(ga)[:160], json.dumps(want_abs)[:160]),
                                  {"part": "stress", "call": desc, "text": cd.text, "seed": job["seed"]}))
+    cwd0 = os.getcwd()
     old = sys.getswitchinterval()
     sys.setswitchinterval(1e-6)
     try:
@@ -1177,6 +1225,10 @@ def task_stress(job):
         stuck = any(t.is_alive() for t in ts)
     finally:
         sys.setswitchinterval(old)
+    if os.getcwd() != cwd0:
+        viol.append(("C12|stress|process|cwd-changed", "the working directory of the process is %s after the stress run "
+                     "(was %s)" % (os.getcwd(), cwd0), {"part": "stress-cwd"}))
+        os.chdir(cwd0)
     post = {k: digest(snap(docs[k].d)) for k in pre}
     if pre != post:
         viol.append(("C12|stress|args|arg-mutated", "an argument dictionary changed during the stress run",
